@@ -37,6 +37,8 @@ type Renderer struct {
 	Trivia int
 	// PlainStrings forces quoted strings with minimal escapes even when R != nil.
 	PlainStrings bool
+	// WideComments lets comments contain characters above U+FFFF (Trivia 2 only).
+	WideComments bool
 }
 
 func (rn *Renderer) chance(num, den int) bool { return rn.R != nil && rn.R.Chance(num, den) }
@@ -311,7 +313,10 @@ func mustSeparate(a, b Tok) bool {
 
 var mildTrivia = []string{" ", " ", " ", "\n", ",", "  ", "\t", ", ", "\n  "}
 var hostileTrivia = []string{" ", "\n", "\r\n", "\r", ",", "\t", "\uFEFF", "\n\r", "\r\r\n", " ,, ", "\n\n"}
-var commentBodies = []string{"", " c", " é \" # x", "\t{ } ...", " 日本語", " \"\"\" ", "#", " \\u0041"}
+var commentBodies = []string{"", " c", " é \" # x", "\t{ } ...", " 日本語", " \"\"\" ", "#", " \\u0041", " del\x7f", " a\u00adb\u2028c"}
+
+// wideCommentBodies: characters above U+FFFF, which the October 2021 reference lexer abstains on (only for renderers that ask).
+var wideCommentBodies = []string{" private\U000F0000use \U0001F600", " \U000E0001tag", "\U0001F600"}
 
 func (rn *Renderer) trivia(must bool) string {
 	if rn.R == nil || rn.Trivia == 0 {
@@ -329,7 +334,11 @@ func (rn *Renderer) trivia(must bool) string {
 	for i := 0; i < n; i++ {
 		if rn.Trivia >= 2 {
 			if r.Chance(1, 6) {
-				b.WriteString("#" + commentBodies[r.Intn(len(commentBodies))])
+				if rn.WideComments && r.Chance(1, 4) {
+					b.WriteString("#" + wideCommentBodies[r.Intn(len(wideCommentBodies))])
+				} else {
+					b.WriteString("#" + commentBodies[r.Intn(len(commentBodies))])
+				}
 				b.WriteString(r.Pick("\n", "\r\n", "\r"))
 			} else {
 				b.WriteString(hostileTrivia[r.Intn(len(hostileTrivia))])
